@@ -74,10 +74,15 @@ static std::string check_wiring(const Doc& d, const ReadOut& r) {
     try { sw::World W(cs, sp); solver& s = *W.s;
         struct { const char* what; double got, want; } X[] = {{"time step of the integrator", s.time_integrator_ptr_->dt_, num(get(d.num, "time_step"))}, {"damping of the integrator", s.time_integrator_ptr_->damping_coeff_, num(get(d.num, "damping_coefficient"))}, {"l_min of the mesh refiner", s.lmr_ptr_->get_l_min(), num(get(d.num, "min_edge_length"))},
             {"adhesion cut-off of the contact model", s.contact_model_ptr_->interaction_cutoff_adhesion_, num(get(d.num, "contact_cutoff_adhesion"))}, {"repulsion cut-off of the contact model", s.contact_model_ptr_->interaction_cutoff_repulsion_, num(get(d.num, "contact_cutoff_repulsion"))},
+            {"squared adhesion cut-off of the contact model", s.contact_model_ptr_->interaction_cutoff_square_adhesion_, num(get(d.num, "contact_cutoff_adhesion")) * num(get(d.num, "contact_cutoff_adhesion"))}, {"squared repulsion cut-off of the contact model", s.contact_model_ptr_->interaction_cutoff_square_repulsion_, num(get(d.num, "contact_cutoff_repulsion")) * num(get(d.num, "contact_cutoff_repulsion"))},
             {"duration", s.sim_parameters_.simulation_duration_, num(get(d.num, "simulation_duration"))}, {"sampling period", s.sim_parameters_.sampling_period_, num(get(d.num, "sampling_period"))}};
         for (auto& x : X) if (x.got != x.want) { snprintf(buf, sizeof buf, "run-not-governed-by-the-written-value: %s is %.17g, file says %.17g", x.what, x.got, x.want); return buf; }
         if (s.lmr_ptr_->enable_edge_swap_operation_ != (get(d.num, "enable_edge_swap_operation") != "0")) return "run-not-governed-by-the-written-value: edge swap switch";
         for (size_t c = 0; c < W.cells().size() && c < d.cells.size(); c++) { const cell& cc = *W.cells()[c]; const Tags& w = d.cells[c].tags; double dens = num(get(w, "cell_mass_density")); if (std::fabs(cc.get_mass() - dens * cc.get_volume()) > 1e-12 * dens * cc.get_volume()) return "run-not-governed-by-the-written-value: cell mass density"; }
+        // the density governs the inertia of every node also when the node list has free slots (a cell remeshed since it was last compacted): the node masses add up to density x volume
+        if (!W.cells().empty()) { cell_ptr c0 = W.cells()[0]; local_mesh_refiner lmr(1e-9, 1e9, true); for (const edge& e0 : c0->get_edge_set()) { edge e = e0; bool can = false; try { can = lmr.can_be_merged(e, c0); } catch (...) {} if (!can) continue; edge_set es = c0->get_edge_set(); try { lmr.merge_edge(e, c0, es); } catch (...) {} break; }
+            long live = 0; for (const node& n : c0->node_lst_) if (n.is_used_) live++; const double dens = num(get(d.cells[0].tags, "cell_mass_density")); const double m = c0->get_node_mass() * (double)live, want = dens * c0->get_volume();
+            if (live != (long)c0->node_lst_.size() && std::fabs(m - want) > 1e-12 * want) { snprintf(buf, sizeof buf, "run-not-governed-by-the-written-value: cell mass density %.17g: the node masses of a cell with %ld live nodes in %zu slots add up to %.17g, density x volume = %.17g", dens, live, c0->node_lst_.size(), m, want); return buf; } }
         const double t0 = s.time_integrator_ptr_->get_simulation_time(); s.run_iteration(); const double t1 = s.time_integrator_ptr_->get_simulation_time(); if (t1 - t0 != num(get(d.num, "time_step"))) { snprintf(buf, sizeof buf, "run-not-governed-by-the-written-value: one iteration advanced time by %.17g, time_step says %s", t1 - t0, get(d.num, "time_step").c_str()); return buf; }
     } catch (std::exception& e) { return std::string("INTERNAL wiring run threw: ") + e.what(); }
     // tensions and bending moduli of the face types govern the faces that carry them, whichever way the triangles happen to be listed: the same surface with its triangle list
